@@ -146,7 +146,9 @@ let decode_lines (ser : string) : R.aline list =
   let sch () = match int () with 0 -> R.SQuoted (escs ()) | _ -> R.SUnquoted (escs ()) in
   let fch () = match int () with
     | 0 -> R.CName (nch ()) | 1 -> R.CInt (ich ())
-    | 2 -> let d = lst nat in let u = lst bl in R.CIp6 { R.g_drop = d; R.g_upper = u }
+    | 2 -> let d = lst nat in let u = lst bl in
+      let z = (match int () with 0 -> None | _ -> let i = nat () in let k = nat () in Some (i, k)) in
+      R.CIp6 { R.g_drop = d; R.g_upper = u; R.g_zip = z }
     | 3 -> R.CStr (sch ())
     | 5 -> (match int () with 0 -> R.CProto (R.PTcp (lst bl)) | 1 -> R.CProto (R.PUdp (lst bl)) | _ -> R.CProto (R.PNum (ich ())))
     | _ -> R.CPlain in
